@@ -531,3 +531,42 @@ func (n *Node) SortedPropNames() []string {
 	sort.Strings(out)
 	return out
 }
+
+// Clone deep-copies a node tree; ref targets are cloned too (memoised so that
+// shared targets stay shared).
+func Clone(n *Node) *Node {
+	return clone(n, map[*Node]*Node{})
+}
+
+func clone(n *Node, memo map[*Node]*Node) *Node {
+	if n == nil {
+		return nil
+	}
+	if c, ok := memo[n]; ok {
+		return c
+	}
+	c := *n
+	memo[n] = &c
+	c.Props = nil
+	for _, p := range n.Props {
+		c.Props = append(c.Props, Prop{Name: p.Name, Node: clone(p.Node, memo)})
+	}
+	c.Required = append([]string(nil), n.Required...)
+	if n.Additional != nil {
+		a := *n.Additional
+		a.Schema = clone(n.Additional.Schema, memo)
+		c.Additional = &a
+	}
+	c.Items = clone(n.Items, memo)
+	c.Target = clone(n.Target, memo)
+	c.Branches = nil
+	for _, b := range n.Branches {
+		c.Branches = append(c.Branches, clone(b, memo))
+	}
+	c.EnumVals = append([]jv.V(nil), n.EnumVals...)
+	if n.Default != nil {
+		d := n.Default.Clone()
+		c.Default = &d
+	}
+	return &c
+}
